@@ -204,8 +204,14 @@ def extract(X, repo):
                 if isinstance(c, ast.Call) and isinstance(c.func, ast.Name) and c.func.id == "_get_or_create_parser":
                     if c.args and isinstance(c.args[0], ast.Constant):
                         parser_key = str(c.args[0].value)
-            for cn in _calls_in(st):
-                if cn == "_parse":
+            # calls in source order: the parser cache (and a parser build) is persistent shared state, `_parse` runs
+            # the per-call program
+            calls_here = sorted(((c.lineno, c.col_offset, c.func.id) for c in ast.walk(st)
+                                 if isinstance(c, ast.Call) and isinstance(c.func, ast.Name)), key=lambda x: (x[0], x[1]))
+            for _, _, cn in calls_here:
+                if cn == "_get_or_create_parser":
+                    prog.append(("touch", "lookup_parsers"))
+                elif cn == "_parse":
                     prog += body_prog
             if locked:
                 prog.append(("rel", ""))
